@@ -2,6 +2,7 @@ package cli
 
 import (
 	"fmt"
+	"os"
 	"path/filepath"
 	"strings"
 
@@ -28,6 +29,14 @@ type GraphBinCase struct {
 	// (empty = just task 0); ReqUndef > 0 puts an undefined name at position ReqUndef-1 of that list
 	Req      []int `json:"req,omitempty"`
 	ReqUndef int   `json:"req_undef,omitempty"`
+	// GlobDep[i]: task i depends on "g<i>/*.txt" (one file to begin with). Makes[i]: task i writes
+	// made<i>.txt and every task that depends on i also lists that file as a dependency (it does not
+	// exist before i has run for the first time). Prior: what happens before the judged invocation —
+	// "run" (the same selection, unforced), "empty:<i>" / "refill:<i>" (the file matched by task i's
+	// glob is removed / written anew).
+	GlobDep []bool   `json:"glob_dep,omitempty"`
+	Makes   []bool   `json:"makes,omitempty"`
+	Prior   []string `json:"prior,omitempty"`
 }
 
 var gbNames = []string{"alpha", "bravo", "charlie", "delta"}
@@ -51,7 +60,19 @@ func (c GraphBinCase) source() string {
 		if c.Undef == i {
 			args = append(args, "nosuchtask")
 		}
-		fmt.Fprintf(&b, "task %s(%s) {\n    echo begin%d >> $LOG\n    echo end%d >> $LOG\n}\n\n", c.name(i), strings.Join(args, ", "), i, i)
+		if i < len(c.GlobDep) && c.GlobDep[i] {
+			args = append(args, fmt.Sprintf(`"g%d/*.txt"`, i))
+		}
+		for _, e := range c.Edges {
+			if e[0] == i && e[1] != i && e[1] < len(c.Makes) && c.Makes[e[1]] {
+				args = append(args, fmt.Sprintf(`"made%d.txt"`, e[1]))
+			}
+		}
+		make := ""
+		if i < len(c.Makes) && c.Makes[i] {
+			make = fmt.Sprintf("    echo made-by-%d > \"$P/made%d.txt\"\n", i, i)
+		}
+		fmt.Fprintf(&b, "task %s(%s) {\n    echo begin%d >> $LOG\n%s    echo end%d >> $LOG\n}\n\n", c.name(i), strings.Join(args, ", "), i, make, i)
 	}
 	return b.String()
 }
@@ -82,6 +103,23 @@ func genGraphBinBody(t *rapid.T) GraphBinCase {
 		c.Undef = rapid.IntRange(0, n-1).Draw(t, "undef_task")
 	}
 	c.Flags = rapid.SampledFrom([][]string{nil, nil, {"--force"}, {"--json"}, {"--quiet"}}).Draw(t, "flags")
+	if rapid.IntRange(0, 2).Draw(t, "files") == 0 {
+		for i := 0; i < n; i++ {
+			c.GlobDep = append(c.GlobDep, rapid.Bool().Draw(t, "globdep"))
+			c.Makes = append(c.Makes, rapid.IntRange(0, 2).Draw(t, "makes") == 0)
+		}
+		np := rapid.IntRange(0, 5).Draw(t, "nprior")
+		for k := 0; k < np; k++ {
+			switch rapid.IntRange(0, 3).Draw(t, "prior") {
+			case 0:
+				c.Prior = append(c.Prior, fmt.Sprintf("empty:%d", rapid.IntRange(0, n-1).Draw(t, "which")))
+			case 1:
+				c.Prior = append(c.Prior, fmt.Sprintf("refill:%d", rapid.IntRange(0, n-1).Draw(t, "which")))
+			default:
+				c.Prior = append(c.Prior, "run")
+			}
+		}
+	}
 	if c.Via == "name" && rapid.Bool().Draw(t, "several_requests") {
 		k := rapid.IntRange(2, 4).Draw(t, "nreq")
 		for i := 0; i < k; i++ {
@@ -103,6 +141,13 @@ func execGraphBin(s *ev.Shard, b *sandbox.Box, c GraphBinCase) *rp.Fail {
 		return &rp.Fail{Sig: "harness", Msg: err.Error()}
 	}
 	logPath := filepath.Join(b.Home, "run.log")
+	for i := range c.GlobDep {
+		if c.GlobDep[i] {
+			if err := writeProject(b, b.Proj, map[string]string{fmt.Sprintf("g%d/a.txt", i): "0"}); err != nil {
+				return &rp.Fail{Sig: "harness", Msg: err.Error()}
+			}
+		}
+	}
 	var sel []string
 	switch c.Via {
 	case "name":
@@ -121,13 +166,35 @@ func execGraphBin(s *ev.Shard, b *sandbox.Box, c GraphBinCase) *rp.Fail {
 		sel = []string{"--clean"}
 	}
 	args := append(append([]string(nil), c.Flags...), sel...)
-	r := b.Run(b.Proj, []string{"LOG=" + logPath}, runTimeout, args...)
+	env := []string{"LOG=" + logPath, "P=" + b.Proj}
+	for k, op := range c.Prior {
+		var i int
+		switch {
+		case op == "run":
+			_ = b.Run(b.Proj, env, runTimeout, sel...)
+		case strings.HasPrefix(op, "empty:"):
+			fmt.Sscanf(op, "empty:%d", &i)
+			_ = os.Remove(filepath.Join(b.Proj, fmt.Sprintf("g%d", i), "a.txt"))
+		case strings.HasPrefix(op, "refill:"):
+			fmt.Sscanf(op, "refill:%d", &i)
+			if i < len(c.GlobDep) && c.GlobDep[i] {
+				if err := writeProject(b, b.Proj, map[string]string{fmt.Sprintf("g%d/a.txt", i): fmt.Sprintf("%d", k+1)}); err != nil {
+					return &rp.Fail{Sig: "harness", Msg: err.Error()}
+				}
+			}
+		}
+	}
+	_ = os.Remove(logPath)
+	r := b.Run(b.Proj, env, runTimeout, args...)
 	if r.TimedOut {
 		return &rp.Fail{Sig: "harness", Msg: "spok timed out"}
 	}
 	log := readLog(logPath)
 	size := c.N*3 + len(c.Edges) + len(c.Flags)
 	desc := fmt.Sprintf("spokfile:\n%s`spok %s` (exit %d, log %v)", src, strings.Join(args, " "), r.Exit, log)
+	if len(c.Prior) > 0 {
+		desc = fmt.Sprintf("spokfile:\n%safter %v: `spok %s` (exit %d, log %v)", src, c.Prior, strings.Join(args, " "), r.Exit, log)
+	}
 	// reference: closure of task 0, undefined names and cycles within it
 	closure := map[int]bool{}
 	undefined := false
@@ -213,7 +280,25 @@ func execGraphBin(s *ev.Shard, b *sandbox.Box, c GraphBinCase) *rp.Fail {
 	if len(log)%2 != 0 {
 		return &rp.Fail{Sig: "interleaved", Size: size, Msg: desc + ": odd number of log lines"}
 	}
+	// a task with file dependencies may have been skipped, unless the run was forced or it never ran before
+	maySkip := func(i int) bool {
+		if contains(c.Flags, "--force") || !contains(c.Prior, "run") {
+			return false
+		}
+		if i < len(c.GlobDep) && c.GlobDep[i] {
+			return true
+		}
+		for _, e := range c.Edges {
+			if e[0] == i && e[1] < len(c.Makes) && c.Makes[e[1]] {
+				return true
+			}
+		}
+		return false
+	}
 	for i := range closure {
+		if _, ok := pos[i]; !ok && maySkip(i) {
+			continue
+		}
 		if _, ok := pos[i]; !ok {
 			return &rp.Fail{Sig: "closure-incomplete", Size: size, Msg: fmt.Sprintf("%s: task %s is the selected task or one of its transitive dependencies but did not run", desc, c.name(i))}
 		}
@@ -237,6 +322,9 @@ func execGraphBin(s *ev.Shard, b *sandbox.Box, c GraphBinCase) *rp.Fail {
 		}
 		if len(roots) >= 2 {
 			s.Class("several_tasks_requested")
+		}
+		if len(c.Prior) > 0 {
+			s.Class("graph_run_after_a_history")
 		}
 	}
 	return nil
